@@ -74,6 +74,18 @@ def run_C08(ctx):
     # a unary Request sent twice with the message once above and once below the compression threshold
     from . import p_scalars
     p_scalars.scalars(ctx, {"enc_reuse"}, [])
+    # "every compressed message decompresses to the original bytes", "a corrupt compressed message affects only its own
+    # call": the bodies of the Frames design check that hold compressed frames (valid, corrupt, the zero message
+    # compressed, on reused message holders), both sides
+    from . import p_frames
+    core.design_check(ctx, "MC_Frames", "MC_Frames.cfg")
+    fr = [p_frames.flat(r, script, False) for r in p_frames.gen_a(ctx)
+          if r["sc"]["limit"] == 0 and r["sc"]["enc"] == "gzip" and p_frames.complete(r["sc"])
+          and any(f["flag"] % 2 == 1 for f in r["sc"]["frames"])
+          for script in ([], p_frames.ONES)]
+    tf = core.run_runner(ctx, "frames", fr, tag="cframes")
+    acc, rej = core.validate(ctx, "TraceFrames", tf, tag="cframes", sigfn=p_frames.sig(ctx.prop))
+    core.judge(ctx, rej)
     return run_wire(ctx, ["C08"], 8000, 41040, 200)
 
 
